@@ -206,6 +206,30 @@ func (x *Exec) invoke(fr *Frame, st *State, c *ssa.CallCommon, recv *IfaceV, arg
 			}
 		}
 	}
+	if con := x.CS.Funcs[key]; con != nil {
+		// a (trusted) contract on an interface method, from /verif/specs
+		sig := c.Signature()
+		d := &calleeDesc{key: key, name: c.Method.Name(), results: sig.Results()}
+		d.ptypes = append(d.ptypes, c.Value.Type())
+		rn := con.Recv
+		if rn == "" {
+			rn = "recv"
+		}
+		d.pnames = append(d.pnames, rn)
+		for i := 0; i < sig.Params().Len(); i++ {
+			d.ptypes = append(d.ptypes, sig.Params().At(i).Type())
+			pn := sig.Params().At(i).Name()
+			if i < len(con.Params) {
+				pn = con.Params[i]
+			}
+			d.pnames = append(d.pnames, pn)
+		}
+		if named, ok := c.Value.Type().(*types.Named); ok && named.Obj().Pkg() != nil {
+			d.pkg = x.P.Package(named.Obj().Pkg().Path())
+		}
+		x.applyContractDesc(fr, st, d, con, append([]Value{recv}, args...), ret)
+		return
+	}
 	if x.isPureInvoke(c) || c.Method.Name() == "Error" && len(args) == 0 {
 		ret(fr, st, x.pureIfaceCall(st, key, recv, args, c, rt))
 		return
@@ -267,18 +291,67 @@ func (x *Exec) pureIfaceCall(st *State, key string, recv *IfaceV, args []Value, 
 
 // ---------- contracts at call sites ----------
 
+// calleeDesc describes a callee for contract application: a function or an interface method.
+type calleeDesc struct {
+	key     string
+	name    string
+	ptypes  []types.Type
+	pnames  []string
+	results *types.Tuple
+	pkg     *ssa.Package
+}
+
+func (x *Exec) descOfFunc(fn *ssa.Function, con *FuncContract) *calleeDesc {
+	d := &calleeDesc{key: funcKey(fn), name: fn.Name(), results: fn.Signature.Results(), pkg: fn.Pkg}
+	if fn.Params == nil && (fn.Signature.Recv() != nil || fn.Signature.Params().Len() > 0) {
+		// external function (no body): parameters come from the signature
+		sig := fn.Signature
+		if sig.Recv() != nil {
+			d.ptypes = append(d.ptypes, sig.Recv().Type())
+			rn := con.Recv
+			if rn == "" {
+				rn = "recv"
+			}
+			d.pnames = append(d.pnames, rn)
+		}
+		for i := 0; i < sig.Params().Len(); i++ {
+			d.ptypes = append(d.ptypes, sig.Params().At(i).Type())
+			pn := sig.Params().At(i).Name()
+			if i < len(con.Params) {
+				pn = con.Params[i]
+			}
+			d.pnames = append(d.pnames, pn)
+		}
+		return d
+	}
+	for i, p := range fn.Params {
+		d.ptypes = append(d.ptypes, p.Type())
+		d.pnames = append(d.pnames, x.contractParamName(fn, con, i))
+	}
+	return d
+}
+
 func (x *Exec) applyContract(fr *Frame, st *State, fn *ssa.Function, con *FuncContract, args []Value, ret callK) {
-	key := funcKey(fn)
+	x.applyContractDesc(fr, st, x.descOfFunc(fn, con), con, args, ret)
+}
+
+func (x *Exec) applyContractDesc(fr *Frame, st *State, d *calleeDesc, con *FuncContract, args []Value, ret callK) {
+	key := d.key
+	if con.Trusted {
+		x.note("trusted-contract " + key)
+	}
 	short := key[strings.LastIndex(key, "/")+1:]
 	st.callSeq[short]++
 	seq := st.callSeq[short]
 	pre := st.Clone()
 	env := x.newSpecEnv(fr, st, pre)
-	env.pkg = fn.Pkg
-	for i, p := range fn.Params {
-		n := x.contractParamName(fn, con, i)
-		env.bind(n, TV{args[i], p.Type()})
-		env.bind(n+"0", TV{args[i], p.Type()})
+	if d.pkg != nil {
+		env.pkg = d.pkg
+	}
+	for i, pt := range d.ptypes {
+		n := d.pnames[i]
+		env.bind(n, TV{args[i], pt})
+		env.bind(n+"0", TV{args[i], pt})
 	}
 	for _, c := range con.Clauses {
 		switch c.Kind {
@@ -303,10 +376,10 @@ func (x *Exec) applyContract(fr *Frame, st *State, fn *ssa.Function, con *FuncCo
 	// frame
 	x.havocFrame(fr, st, con, env)
 	// results
-	rs := fn.Signature.Results()
+	rs := d.results
 	var results []Value
 	post := x.newSpecEnv(fr, st, pre)
-	post.pkg = fn.Pkg
+	post.pkg = env.pkg
 	for k2, v := range env.names {
 		post.names[k2] = v
 	}
@@ -317,9 +390,9 @@ func (x *Exec) applyContract(fr *Frame, st *State, fn *ssa.Function, con *FuncCo
 		}
 		var v Value
 		if con.Functional {
-			v = x.functionalResult(st, fn, i, args)
+			v = x.functionalResultDesc(st, d, i, args)
 		} else {
-			v = x.freshValue(st, rs.At(i).Type(), "ret."+fn.Name()+"."+rn)
+			v = x.freshValue(st, rs.At(i).Type(), "ret."+d.name+"."+rn)
 		}
 		results = append(results, v)
 		post.bind(rn, TV{v, rs.At(i).Type()})
@@ -444,6 +517,22 @@ func (x *Exec) havocLocation(st *State, env *SpecEnv, item string) {
 		}
 		return
 	}
+	if strings.HasPrefix(item, "gf(") && strings.HasSuffix(item, ")") {
+		parts := splitTop(item[3:len(item)-1], ',')
+		if len(parts) != 2 {
+			unsupported("assigns gf(ptr, name)")
+		}
+		e, err := ParseExpr(parts[0])
+		if err != nil {
+			unsupported("assigns: %v", err)
+		}
+		tv := x.evalSpec(env, e)
+		p := tv.V.(*PtrV)
+		name := "GF:" + strings.TrimSpace(parts[1])
+		arr := x.heapArr(st, name, SInt, SBV64)
+		st.heap[name] = Store(arr, p.Ref, x.freshSym("hv.gf", SBV64))
+		return
+	}
 	if strings.HasPrefix(item, "val(") && strings.HasSuffix(item, ")") {
 		e, err := ParseExpr(item[4 : len(item)-1])
 		if err != nil {
@@ -531,6 +620,12 @@ func (x *Exec) checkFrame(fr *Frame, con *FuncContract, env *SpecEnv, st, pre *S
 						}
 					}
 				}
+			case strings.HasPrefix(item, "gf("):
+				parts := splitTop(item[3:len(item)-1], ',')
+				e, _ := ParseExpr(parts[0])
+				tv := x.evalSpec(penv, e)
+				n := "GF:" + strings.TrimSpace(parts[1])
+				get(n).idxs = append(get(n).idxs, tv.V.(*PtrV).Ref)
 			case strings.HasPrefix(item, "val("):
 				e, _ := ParseExpr(item[4 : len(item)-1])
 				tv := x.evalSpec(penv, e)
